@@ -61,7 +61,7 @@ def is_down(positive, d, ctx):
     return sum(1 for v in vals if v > 0) > len(vals) / 2
 
 
-def body(ctx, n, positive, with_bounds, dimcoord, data_pos, pd, d2s, depth_mode, via, second=False, bounds_coords=False):
+def body(ctx, n, positive, with_bounds, dimcoord, data_pos, pd, d2s, depth_mode, via, second=False, bounds_coords=False, dangling=False):
     from emsarray.operations import depth as depth_ops
     ds, dim, d, b, temp, dims = build(ctx, n, positive, with_bounds, dimcoord, data_pos, depth_mode, second)
     if via == 'convention':
@@ -72,6 +72,9 @@ def body(ctx, n, positive, with_bounds, dimcoord, data_pos, pd, d2s, depth_mode,
         ds.attrs.update(geo_ds.attrs)
     if bounds_coords and with_bounds:
         ds = ds.set_coords('zc_bnds')      # the bounds variable held as an xarray coordinate
+    if dangling:
+        # the coordinate still names a bounds variable that is no longer in the dataset (as after select_variables)
+        ds['zc'].attrs['bounds'] = 'zc_bnds_that_was_dropped'
     names = ['zc', 'zalt'] if second else ['zc']
     if second and n % 2:
         names = names[::-1]
@@ -88,6 +91,8 @@ def body(ctx, n, positive, with_bounds, dimcoord, data_pos, pd, d2s, depth_mode,
                 cv = CFGrid1D(dataset)
                 ctx.check({str(c.name) for c in cv.depth_coordinates} == set(names), 'every depth coordinate of the dataset is found')
                 out = cv.normalize_depth_variables(positive_down=pd, deep_to_shallow=d2s)
+            elif via == 'iterator':
+                out = depth_ops.normalize_depth_variables(dataset, (n for n in names), positive_down=pd, deep_to_shallow=d2s)
             else:
                 out = depth_ops.normalize_depth_variables(dataset, names, positive_down=pd, deep_to_shallow=d2s)
         return out, w
@@ -199,6 +204,15 @@ def cases(tier):
                            dict(n=n, positive=positive, with_bounds=with_bounds, dimcoord=dimcoord, data_pos=k % 3,
                                 pd=pd, d2s=d2s, depth_mode='symbolic', via='function'),
                            patches=depthcommon.patches, max_paths=200)
+    # the coordinate names handed over as a one-shot iterator; a bounds attribute that names a missing variable
+    for positive in ('up', 'down'):
+        for (pd, d2s) in (opts if not q else opts[1::2]):
+            yield Case(f'sym:{positive}:pd{pd}:d2s{d2s}:b1:n3:iterator', body,
+                       dict(n=3, positive=positive, with_bounds=True, dimcoord=False, data_pos=2, pd=pd, d2s=d2s, depth_mode='symbolic', via='iterator',
+                            second=(positive == 'up')), patches=depthcommon.patches, max_paths=200)
+            yield Case(f'sym:{positive}:pd{pd}:d2s{d2s}:b0:n2:dangling-bounds-attribute', body,
+                       dict(n=2, positive=positive, with_bounds=False, dimcoord=True, data_pos=1, pd=pd, d2s=d2s, depth_mode='symbolic', via='function',
+                            dangling=True), patches=depthcommon.patches, max_paths=200)
     # bounds held as coordinates
     for positive in ('up', 'down'):
         for (pd, d2s) in opts:
